@@ -438,7 +438,7 @@ func rangeOverLocalCopyOf(fn *ssa.Function, field string) bool {
 	// a rangeindex loop bounded by len(mk)
 	for _, i := range ssau.Ifs(fn) {
 		b, ok := i.Cond.(*ssa.BinOp)
-		if !ok || b.Op != token.LSS || i.Block().Comment != "rangeindex.loop" {
+		if !ok || b.Op != token.LSS || blockComment(i) != "rangeindex.loop" {
 			continue
 		}
 		if isLenOf(func(v ssa.Value) bool {
